@@ -61,7 +61,7 @@ func cmdVerify(args []string) int {
 	fs.Int64Var(&o.seed, "seed", 0, "seed (recorded in the evidence; the proof search itself is deterministic)")
 	fs.Parse(args)
 	if o.timeout == 0 {
-		o.timeout = 10
+		o.timeout = 20
 		if o.tier == "thorough" {
 			o.timeout = 120
 		}
@@ -196,10 +196,17 @@ func runVerify(o *runOpts) int {
 	}
 	var jobs []*solveJob
 	for _, r := range results {
+		var keep []*Obligation
 		for _, ob := range r.Obls {
 			ob.Property = r.Contract.Properties
+			if strings.Contains(ob.Name, "!slow") && o.tier != "thorough" {
+				r.SkippedSlow++
+				continue
+			}
+			keep = append(keep, ob)
 			jobs = append(jobs, &solveJob{r.VC, ob})
 		}
+		r.Obls = keep
 		for _, ob := range r.Vacuity {
 			jobs = append(jobs, &solveJob{r.VC, ob})
 		}
